@@ -29,10 +29,12 @@ def createDumpDevice (cyl heads secs : Nat) (native : Bool) : Top Unit := do
 
 /-- `adfCreateFlop(dev, volName, volType)` -/
 def createFlop (volName : Bytes) (volType : Nat) : Top RC := do
+  let w0 ← Top.getW
   let ok ← createVol 0 0 80 volName volType
   if !ok then
-    let c ← Top.getCfg
-    Top.setCfg { c with vols := [] }
+    -- the device keeps the volume list (and the library memory of its volumes) it had: the new volume never existed
+    let w ← Top.getW
+    Top.setW { w with cfg := { w.cfg with vols := w0.cfg.vols }, st := { w.st with mem := w0.st.mem } }
     return rcError
   let c ← Top.getCfg
   Top.setCfg { c with devType := if c.sectors = 11 then DEVTYPE_FLOPDD else DEVTYPE_FLOPHD }
@@ -41,10 +43,11 @@ def createFlop (volName : Bytes) (volType : Nat) : Top RC := do
 /-- `adfCreateHdFile(dev, volName, volType)` -/
 def createHdFile (volName : Bytes) (volType : Nat) : Top RC := do
   let c ← Top.getCfg
+  let w0 ← Top.getW
   let ok ← createVol 0 0 c.cylinders volName volType
   if !ok then
-    let c ← Top.getCfg
-    Top.setCfg { c with vols := [] }
+    let w ← Top.getW
+    Top.setW { w with cfg := { w.cfg with vols := w0.cfg.vols }, st := { w.st with mem := w0.st.mem } }
     return rcError
   let c ← Top.getCfg
   Top.setCfg { c with devType := DEVTYPE_HARDFILE }
